@@ -90,6 +90,26 @@ def array2dHdu [DecidableEq α] (flip : Bool) (m : Mask) (slim : List α) (scale
     Hdu α :=
   hduForOutput2d flip (nativeRows m slim zero) (pixelScaleHeader [scales.1, scales.2] zero)
 
+/-- `np.array(self.native)` of an `Array2D` in whatever form it holds its values: `.native` re-runs the
+    constructor on the stored array, so a native-stored array with arbitrary values under the mask
+    (after arithmetic, or built with `skip_mask=True`) is zero-filled again (`none` = ArrayException) -/
+def storedNativeRows (m : Mask) (st : Impl.Stored α) (zero : α) : Option (List (List α)) :=
+  match Impl.viewNative m st zero with
+  | some (.native v) => some (toRows m.h m.w v)
+  | _ => none
+
+/-- `Array2D.hdu_for_output` for any storage form -/
+def array2dHduStored [DecidableEq α] (flip : Bool) (m : Mask) (st : Impl.Stored α) (scales : α × α)
+    (zero : α) : Option (Hdu α) :=
+  (storedNativeRows m st zero).map fun rows =>
+    hduForOutput2d flip rows (pixelScaleHeader [scales.1, scales.2] zero)
+
+/-- `Array1D.hdu_for_output` of a NATIVE-stored 1-D array holding `v`: `.native` is
+    `Array1D(values=self, mask, store_native=True)` and `convert_array_1d` returns a native input as it
+    is — unlike the 2-D constructor it does not re-apply the mask (known finding D31). -/
+def array1dHduNativeStored [DecidableEq α] (v : List α) (scale : α) (zero : α) : Hdu α :=
+  hduForOutput1d v (pixelScaleHeader [scale] zero)
+
 /-- `self.astype("float")` of a boolean mask -/
 def boolToNum (zero one : α) (b : Bool) : α := if b then one else zero
 
